@@ -93,7 +93,7 @@ T = {
  'C03e': ('C03', "separated_by(..).allow_leading() with a separator that can fail after consuming (multi-token, padded, custom) and an input starting with a partial separator followed by a valid item: the failed leading separator is not rewound, tokens are matched by nothing", "same area as C02a/C05d, different edit"),
  'C04e': ('C04', "separated_by with a finite at_most/exactly used as a unit parser (to_slice / ignored / then_ignore, no collect) on an input where the n-th item is followed by another separator: the hand-rolled unit loop swallows that separator", "initially MISSED (the unit-vs-collect pairs had no bounds); caught after the pairs got bounds, all flag combinations and a visible remainder"),
  'C05e': ('C05', "not() around a parser that emits (validate / recovery) and then fails: Not repositions with rewind_input (keeps emissions) instead of rewind", ""),
- 'C06e': ('C06', "nested_in after an earlier alternative that got past the group token and failed further along: NestedIn no longer shelters / re-prioritises the pending error, with_input overwrites it", ""),
+ 'C06e': ('C06', "nested_in after an earlier alternative that got past the group token and failed further along: NestedIn no longer shelters / re-prioritises the pending error, with_input overwrites it", "initially MISSED by C06 (nested_in was outside its sheltering sweep; C16 caught it from the start); caught by C06 after nested_in over two region shapes joined the sweep"),
  'C07e': ('C07', "Input::map / Stream::map / IterInput with an end-of-input span beyond the last token, and an explicit end() inside a captured parser: next() at end of input clears the remembered last-token end, the capture widens to the end-of-input span", ""),
  'C08e': ('C08', "skip_then_retry_until giving up because a *compound* `until` (choice / or / or_not.then) matched and left a pending error of its own at or beyond p's failure: the original error is merged (add_alt_err) instead of restored", ""),
  'C09e': ('C09', "a right-associative and a left-associative infix operator with the same binding power, the left-associative one inside the right operand (a*b+c): right(x) becomes (2x+1, 2x+1)", ""),
@@ -106,8 +106,14 @@ T = {
  'C16e': ('C16', "an earlier alternative consumed the tree token as an opaque token, went >= 1 outer token further and failed; then the nested parse leaves a pending error: with_input's hand-written merge overwrites an outer error pending further along", "same area as C06e, different edit"),
  'C17e': ('C17', "labelled(..).as_context() failing past its first token with a Rich::custom error, then a plain primitive failing strictly further: replace_expected_found keeps the old context (`..self`)", ""),
  'C18e': ('C18', "regex() on &str whose match contains a multi-byte character and is followed by more tokens: skip_bytes feeds the inspector `skip` (bytes) tokens instead of the tokens up to the end of the match", "targets the repair 3a35b3d of the defect the API family found"),
- 'C19e': ('C19', "collect_exactly::<[T; N]> over an iterator that fails right after yielding exactly N items (at_least(k) / exactly(k), k > N) in Emit mode: the extra poll returns early with a fully initialised array that nobody drops", ""),
+ 'C19e': ('C19', "collect_exactly::<[T; N]> over an iterator that fails right after yielding exactly N items (at_least(k) / exactly(k), k > N) in Emit mode: the extra poll returns early with a fully initialised array that nobody drops", "initially MISSED (no workload asked an iterable for more items than the array holds); caught after such cases joined the model class, the zero-sized family and the Container family"),
  'C20e': ('C20', "mutual recursion through declare/define where a handle was cloned before its rule was defined and the declared handle is dropped before parsing: the clone is weak, parse panics 'used before being defined'", ""),
+ 'C02f': ('C02', "foldr / foldr_with over >= 6 items with an order-sensitive folder: the small-buffer stack that replaced the per-fold Vec folds its spilled tail oldest-first", ""),
+ 'C04f': ('C04', "a bounded repeated() or a separated_by() in a unit position whose accepted items emitted secondary errors and whose minimum count is then missed, with no enclosing rewinding combinator: the unit loop now rewinds (truncating those errors) where collect() does not", ""),
+ 'C06f': ('C06', "the same memoized() instance attempted twice at one position and failing both times, another alternative failing further (or, for Rich, at the same position with other expectations) in between: a table hit assigns the recorded error over the pending one instead of merging it", "same area as C11c, different edit"),
+ 'C10f': ('C10', "IoInput over a reader that is not at offset 0 when IoInput::new is called (a header was read before) and a grammar that rewinds and reads again: re-synchronising with an absolute seek re-reads bytes from before the input", "initially MISSED (every reader started at offset 0); caught after readers that had already been read from were added"),
+ 'C15f': ('C15', "a context provider used directly as an iterable (hdr.ignore_with_ctx(items) / then_with_ctx driven item by item) on the right-hand side of an iterable then-chain whose left part consumes >= 1 token: Then::make_iter creates both halves eagerly, the header is read at the wrong place", "initially MISSED (providers were only used at parser level); caught after context providers as iterables, alone and chained, were compared with the parser-level formulation"),
+ 'C19f': ('C19', "collect_exactly::<Box<[T; N]>> (boxed array only) abandoned after >= 1 and < N stored elements with a destructor, in Emit mode: NEEDS_DROP is computed from the uninitialised container type and is always false for the boxed array", ""),
 }
 latest = {}
 hist = {}
